@@ -1,7 +1,7 @@
-import Ysgo.Lemmas.MarkupVal
+import Ysgo.Lemmas.MarkupDec
 import Ysgo.Lemmas.MarkupCount
 /-!
-# Scanner lemmas for markers with properties (all value kinds but decimals) and the shorthand `[name=value]`
+# Scanner lemmas for markers with properties (every value kind) and the shorthand `[name=value]`
 -/
 namespace Ysgo.Markup
 open Ysgo.Unicode Ysgo.MarkupSpec
@@ -50,8 +50,8 @@ theorem IsEnd.ndot {d : Char} (h : IsEnd d) : d ≠ '.' := by
 theorem IsEnd.neq {d : Char} (h : IsEnd d) : (d == '=') = false := by
   rcases h with rfl | rfl <;> decide
 
-/-- the properties of a well-formed marker this file can handle -/
-def PropsOk (ps : List (List Char × SVal)) : Prop := ∀ q ∈ ps, isIdent q.1 = true ∧ valOk q.2 = true ∧ notDec q.2 = true
+/-- the properties of a well-formed marker -/
+def PropsOk (ps : List (List Char × SVal)) : Prop := ∀ q ∈ ps, isIdent q.1 = true ∧ valOk q.2 = true
 
 /-- what follows a value inside the property list -/
 theorem follow_props (ps : List (List Char × SVal)) (ws : List (List Char)) (i : Nat) (tailW : List Char) (d : Char)
@@ -131,7 +131,7 @@ theorem propsLoop_props (nm : String) (src0 : Nat) (ws : List (List Char)) (hws 
               (propsLead ps ws (i + 3) tailW ++ propsBody ps ws (i + 3) tailW d l)))) =
             [] ++ (a :: t) ++ (slot ws (i + 1) ++ '=' :: (slot ws (i + 2) ++ renderVal v ++
               (propsLead ps ws (i + 3) tailW ++ propsBody ps ws (i + 3) tailW d l))) := by simp
-        obtain ⟨w2, k2, hw2, hpv⟩ := parseValue_render v x hq.2.1 hq.2.2 hv (slot ws (i + 2))
+        obtain ⟨w2, k2, hw2, hpv⟩ := parseValue_render_all v x hq.2 hv (slot ws (i + 2))
           (propsLead ps ws (i + 3) tailW ++ propsBody ps ws (i + 3) tailW d l) w d' l'
           (k + wAny.length + (a :: t).length + (slot ws (i + 1)).length + 1) p (allSpace_slot ws (i + 2) hws) hfol
         obtain ⟨wT, kT, hwT, hih⟩ := ih (i + 3) r (acc ++ [(String.ofList (a :: t), x)]) w2 k2 hr hps' hw2
@@ -190,7 +190,7 @@ def headText (n : List Char) (sh : Option SVal) (ps : List (List Char × SVal)) 
 of the marker -/
 theorem marker_head (n : List Char) (sh : Option SVal) (ps : List (List Char × SVal)) (ws : List (List Char))
     (d : Char) (l : List Char) (props : List (String × PVal)) (k p fuel : Nat)
-    (hn : isIdent n = true) (hsh : ∀ v, sh = some v → valOk v = true ∧ notDec v = true) (hps : PropsOk ps)
+    (hn : isIdent n = true) (hsh : ∀ v, sh = some v → valOk v = true) (hps : PropsOk ps)
     (hws : wsOk ws = true) (hd : IsEnd d) (hres : resolve n sh ps = some props) :
     ∃ wT kT, AllSpace wT ∧
       parseAttributeMarker (fuel + ps.length) { rest := headText n sh ps ws d l, src := k, pos := p } =
@@ -242,7 +242,7 @@ theorem marker_head (n : List Char) (sh : Option SVal) (ps : List (List Char × 
     simp only [List.nil_append] at this
     exact this
   | some v =>
-    obtain ⟨hvok, hvnd⟩ := hsh v rfl
+    have hvok := hsh v rfl
     simp only [resolve, List.singleton_append, resolveProps] at hres
     cases hv : valOf v with
     | none => simp [hv] at hres
@@ -255,7 +255,7 @@ theorem marker_head (n : List Char) (sh : Option SVal) (ps : List (List Char × 
         have htw := allSpace_slot ws (renderProps ps ws 3).2 hws
         have hsplit := renderProps_split ps ws 3 (slot ws (renderProps ps ws 3).2) d l
         obtain ⟨w, d', l', hfol, hbody⟩ := follow_props ps ws 3 (slot ws (renderProps ps ws 3).2) d l hps hws htw hd
-        obtain ⟨w2, k2, hw2, hpv⟩ := parseValue_render v x hvok hvnd hv (slot ws 2)
+        obtain ⟨w2, k2, hw2, hpv⟩ := parseValue_render_all v x hvok hv (slot ws 2)
           (propsLead ps ws 3 (slot ws (renderProps ps ws 3).2) ++ propsBody ps ws 3 (slot ws (renderProps ps ws 3).2) d l)
           w d' l' (k + 1 + (slot ws 0).length + (a :: t).length + (slot ws 1).length + 1) p (allSpace_slot ws 2 hws) hfol
         obtain ⟨wT, kT, hwT, hloop⟩ := propsLoop_props (String.ofList (a :: t)) k ws hws _ htw d hd l p fuel ps 3 r
